@@ -104,6 +104,24 @@ class Project:
         cdst.append(target.dependencies)
         return set.union(*cdst)
 
+    def build_order(self, target_names):
+        """Give the targets and all their dependencies, dependencies first.
+
+        The targets must be free of dependency loops (see check_target).
+        """
+        order = []
+
+        def visit(target_name):
+            if target_name not in order:
+                target = self.get_target(target_name)
+                for dep in sorted(target.dependencies):
+                    visit(dep)
+                order.append(target_name)
+
+        for target_name in target_names:
+            visit(target_name)
+        return order
+
 
 class Target:
     """Defines a target that has a name and a list of tasks to execute"""
@@ -214,17 +232,11 @@ class TaskRunner:
         for target in target_list:
             project.check_target(target)
 
-        # Calculate all dependencies:
-        # TODO: make this understandable:
-        target_list = set.union(
-            *[project.dependencies(t) for t in target_list]
-        ).union(set(target_list))
-
-        # Lookup actual targets:
+        # Calculate all dependencies, dependencies before their users:
         target_list = [
-            project.get_target(target_name) for target_name in target_list
+            project.get_target(target_name)
+            for target_name in project.build_order(target_list)
         ]
-        target_list.sort()
 
         self.logger.info(f"Target sequence: {target_list}")
 
